@@ -25,12 +25,12 @@ var ssoDims = []dim{
 	{"relay", []string{"rs-1", "", "a b&c=d/é\"<>", "long"}},
 	{"sigalg", []string{"", "rsa-sha256", "rsa-sha1", "dsa-sha1", "dsa-sha256", "unknown"}},
 	{"sig", []string{"", "valid", "other-relay", "other-request", "garbage", "notb64", "foreign-key", "der-seq"}},
-	{"payload", []string{"authn", "empty", "badb64", "baddeflate", "notxml", "wrongroot"}},
+	{"payload", []string{"authn", "empty", "badb64", "baddeflate", "notxml", "wrongroot", "authn-truncated"}},
 	{"id", []string{"set", "empty", "absent"}},
 	{"version", []string{"set", "empty", "absent"}},
-	{"issuer", []string{"registered", "absent", "empty", "unregistered", "other-registered"}},
+	{"issuer", []string{"registered", "absent", "empty", "unregistered", "other-registered", "case-variant"}},
 	{"destination", []string{"absent", "advertised", "foreign", "trailing-slash", "upper-host"}},
-	{"notbefore", []string{"absent", "past", "future", "garbage", "past-nofrac", "past-9frac"}},
+	{"notbefore", []string{"absent", "past", "future", "garbage", "past-nofrac", "past-9frac", "now-frac"}},
 	{"notonorafter", []string{"absent", "future", "past", "garbage", "zero-time"}},
 	{"emptycond", []string{"no", "yes"}},
 	{"protobinding", []string{"absent", "post", "redirect", "artifact", "other"}},
@@ -40,10 +40,10 @@ var ssoDims = []dim{
 	{"escstyle", []string{"go", "lowerhex", "pct20"}},
 	{"reqsigned", []string{"absent", "false", "0", "true", "1"}},
 	{"certs", []string{"one-rsa", "none", "one-ec", "two-rsa", "one-rsa-encryption"}},
-	{"acs", []string{"post+redirect", "post", "redirect", "artifact", "none", "redirect-default-post", "paos+unknown", "no-spsso", "simplesign-only", "custom-first"}},
+	{"acs", []string{"post+redirect", "post", "redirect", "artifact", "none", "redirect-default-post", "paos+unknown", "no-spsso", "simplesign-only", "custom-first", "redirect-unparsable"}},
 	{"wantsigned", []string{"", "false", "true", "1"}},
 	{"lookup", []string{"ok", "fail"}},
-	{"create", []string{"ok", "fail"}},
+	{"create", []string{"ok", "fail", "fail-with-value"}},
 	{"respkey", []string{"ok", "fail", "nil"}},
 }
 
@@ -110,6 +110,8 @@ func acsFor(label string) []AcsEntry {
 		return []AcsEntry{{"1", "", artifactBind, "https://sp.example.com/acs/artifact"}}
 	case "redirect-default-post":
 		return []AcsEntry{{"0", "", provider.PostBinding, "https://sp.example.com/acs/post"}, {"1", "true", provider.RedirectBinding, "https://sp.example.com/acs/redirect"}}
+	case "redirect-unparsable":
+		return []AcsEntry{{"1", "", provider.RedirectBinding, "127.0.0.1:8443/saml/acs"}}
 	case "simplesign-only":
 		return []AcsEntry{{"1", "", "urn:oasis:names:tc:SAML:2.0:bindings:HTTP-POST-SimpleSign", "https://sp.example.com/acs/simplesign"}}
 	case "custom-first":
@@ -209,6 +211,9 @@ func timeLabel(l string, now time.Time) string {
 		return "yesterday"
 	case "zero-time":
 		return "0001-01-01T00:00:00Z" // a valid instant of the supported lexical form, long past
+	case "now-frac":
+		// stamped with full precision immediately before the request is sent: not in the future, same wall-clock second
+		return now.UTC().Format("2006-01-02T15:04:05.000000000Z")
 	}
 	return "-"
 }
@@ -253,6 +258,11 @@ func runSso(c Case) *SsoRun {
 	if c["create"] == "fail" {
 		st.Fail("CreateAuthRequest", 1)
 	}
+	if c["create"] == "fail-with-value" {
+		// the storage fails but still hands back the (unsaved) request object together with the error
+		st.Fail("CreateAuthRequest", 1)
+		st.CreateFailWithValue = true
+	}
 	switch c["respkey"] {
 	case "fail":
 		st.Fail("GetResponseSigningKey", 1)
@@ -294,6 +304,11 @@ func runSso(c Case) *SsoRun {
 		doc.Issuer = "https://unknown.example.com/metadata"
 	case "other-registered":
 		doc.Issuer = spEntityB
+	case "case-variant":
+		// a look-alike of the registered entity ID (host in another case); the storage resolves entity IDs
+		// case-insensitively, so the lookup succeeds and only the equality check of the library stands in the way
+		doc.Issuer = strings.Replace(spEntity, "sp.example.com", "SP.Example.COM", 1)
+		st.FoldEntityCase = true
 	}
 	switch c["destination"] {
 	case "advertised":
@@ -420,6 +435,16 @@ func runSso(c Case) *SsoRun {
 			payload = deflateB64("this is not xml <")
 		} else {
 			payload = plainB64("this is not xml <")
+		}
+	case "authn-truncated":
+		// a DEFLATE stream that ends early: the whole message is in the part that still inflates (the rest is a
+		// trailing comment), but the stream is not a complete DEFLATE stream
+		r.Doc = xmlDoc
+		full := deflate([]byte(xmlDoc + "<!--" + strings.Repeat("padding ", 200) + "-->"))
+		if deflated && len(full) > 40 {
+			payload = base64.StdEncoding.EncodeToString(full[:len(full)-12])
+		} else {
+			payload = plainB64(xmlDoc[:len(xmlDoc)/2])
 		}
 	case "wrongroot":
 		w := fmt.Sprintf(`<samlp:LogoutRequest xmlns:samlp="%s" ID="x" Version="2.0"/>`, nsProtocol)
@@ -552,12 +577,12 @@ func runSso(c Case) *SsoRun {
 	isAuthn := (c["payload"] == "authn" && c["transport"] != "get-noquery") || c["transport"] == "post-query-replay"
 	f.Decodes = f.Decodes && isAuthn
 	f.IssuerPresent = doc.Issuer != "-"
-	f.IssuerRegistered = ((doc.Issuer == spEntity && regErr == nil) || doc.Issuer == spEntityB) && c["lookup"] == "ok"
+	f.IssuerRegistered = ((doc.Issuer == spEntity && regErr == nil) || doc.Issuer == spEntityB) && c["lookup"] == "ok" // a case variant is not the registered entity ID
 	f.IssuerEqualsSP = f.IssuerRegistered
 	f.IDSet = doc.ID != "" && doc.ID != "-"
 	f.VersionSet = doc.Version != "" && doc.Version != "-"
 	f.DestinationOK = doc.Destination == "-" || doc.Destination == ssoLocation
-	nbOK := c["notbefore"] == "absent" || strings.HasPrefix(c["notbefore"], "past")
+	nbOK := c["notbefore"] == "absent" || strings.HasPrefix(c["notbefore"], "past") || c["notbefore"] == "now-frac"
 	noaOK := c["notonorafter"] == "absent" || c["notonorafter"] == "future"
 	f.TimeOK = nbOK && noaOK
 	f.TimeUnparseable = c["notbefore"] == "garbage" || c["notonorafter"] == "garbage" // "zero-time" parses, and is in the past
